@@ -996,10 +996,14 @@ func SchedOracle(c *SchedCase, obs *SchedObs) []SchedFinding {
 		for _, k := range c.Broken {
 			undefElsewhere = undefElsewhere || k == "subrepo-elsewhere-undefined"
 		}
+		for _, k := range c.SubrepoOK {
+			undefElsewhere = undefElsewhere || k == "other"
+		}
 		if undefElsewhere && c.Threads == 1 {
-			// found by the subrepo shapes on the unchanged tree: with -n 1 the subinclude of a target of a subrepo that the
-			// package expected to define it does not define never returns; everything else is built and plz then sits there
-			add("C05", "undefined-subrepo-subinclude-hangs-with-one-thread", "with -n 1 a BUILD file that subincludes a target of a subrepo which its defining package does not define: plz did not terminate within %d ms (wall %d ms)", obs.BoundMs, obs.WallMs)
+			// found by the subrepo shapes on the unchanged tree: with -n 1 a subinclude of a target of a subrepo that ANOTHER,
+			// not yet parsed package is expected to define (whether it does or not) never returns; every target declared
+			// before the subinclude is built and plz then sits there
+			add("C05", "subinclude-subrepo-of-other-package-hangs-with-one-thread", "with -n 1 a BUILD file that subincludes a target of a subrepo which another (not yet parsed) package is expected to define: plz did not terminate within %d ms (wall %d ms)", obs.BoundMs, obs.WallMs)
 		} else if c.KeepGoing && hasCmdFail && hasCycle {
 			add("C05", "keep-going-failure-disables-cycle-check", "with --keep_going, a failed command and a dependency cycle plz did not terminate within %d ms", obs.BoundMs)
 		} else {
